@@ -1198,6 +1198,29 @@ def _owned_next(eng, st, args, ci):
     return some(seq.items[p])
 
 
+# ---------------------------------------------------------------- slice.get(range)
+
+@intrinsic(r'^(core|std)::slice::<impl \[.*\]>::get::<(std::ops::)?(RangeFrom|RangeTo|Range)<usize>>$', 'slice::get(range): Some(sub-slice) when the bounds fit, None otherwise', prio=2)
+def _slice_get_range(eng, st, args, ci):
+    ref = args[0]
+    seq = eng.read_ref(st, ref) if isinstance(ref, Ref) else ref
+    if not isinstance(seq, Seq):
+        raise Unsupported('slice::get on %r' % (seq,))
+    r = args[1]
+    while isinstance(r, Ref):
+        r = eng.read_ref(st, r)
+    kind = re.search(r'(RangeFrom|RangeTo|Range)<usize>>$', ci.func).group(1)
+    n = len(seq.items)
+    vals = [eng.concrete_under(st, x) for x in r.items]
+    if any(v is None for v in vals):
+        raise Unsupported('slice::get with an undetermined bound')
+    lo, hi = (vals[0], n) if kind == 'RangeFrom' else ((0, vals[0]) if kind == 'RangeTo' else (vals[0], vals[1]))
+    if not (0 <= lo <= hi <= n):
+        return NONE
+    cell = eng.ref_to(st, Seq(list(seq.items[lo:hi])), False, 'subslice')
+    return some(cell)
+
+
 # ---------------------------------------------------------------- (a..).zip(iter): numbering the items of another iterator
 
 @intrinsic(r'^<(std::ops::)?RangeFrom<(u\d+|usize|i\d+|isize)> as (std::iter::)?Iterator>::zip::<', 'RangeFrom::zip(iter) (counter + the other iterator, advanced by its own summary)', prio=2)
